@@ -2,7 +2,18 @@
 
 package saml
 
-import "github.com/beevik/etree"
+import (
+	"io"
+
+	"github.com/beevik/etree"
+)
+
+// verifInflateSource is a reader over a deflate stream that inflates to size bytes.
+func verifInflateSource(size int) io.Reader
+
+// verifReadMany reads from r with a buffer of bufLen bytes until the first error - symbolically for `reads`
+// calls, natively until the stream ends - and returns the number of bytes delivered in total.
+func verifReadMany(r io.Reader, bufLen int, reads int) int
 
 func verifMaterialise(d *verifDoc) []byte
 
